@@ -51,8 +51,15 @@ def check_chain_list(ctx, chains, L, oid_id, exact=True, fast=False):
     if exact:
         ctx.ok('graph.polynomial==sum-of-padded-chains', poly == ref, f'graph denotes {dict(list(poly.items())[:6])}..., chains sum to {dict(list(ref.items())[:6])}...', detail)
     else:
-        sc = max([abs(c) for c in ref.values()] + [1.0])
-        ctx.close('graph.polynomial~sum-of-padded-chains', refs.poly_maxdiff(poly, ref) / sc, 1e-12, 'graph polynomial deviates from the chain sum', detail)
+        # term by term, relative to the sum of the magnitudes contributing to that word (a dropped tiny term must be visible next to large ones)
+        mag = {}
+        for ch in chains:
+            w = tuple([int(oid_id)] * ch.istart + [int(o) for o in ch.oids] + [int(oid_id)] * (L - ch.istart - len(ch.oids)))
+            mag[w] = mag.get(w, 0.0) + abs(ch.coeff)
+        worst = 0.0
+        for w in set(poly) | set(ref):
+            worst = max(worst, abs(poly.get(w, 0) - ref.get(w, 0)) / mag[w] if mag.get(w, 0) > 0 else float('inf'))
+        ctx.close('graph.polynomial~sum-of-padded-chains', worst, 1e-12, 'graph polynomial deviates from the chain sum (relative per term)', detail)
     return g
 
 
@@ -125,7 +132,7 @@ def random_case(ctx, idx, rng):
     for _ in range(n):
         c = gen.rand_chain(rng, L, nops=nops, charges=(kind == 'charged'), allow_zero=(kind != 'single'), pool=pool)
         if kind == 'gaussian':
-            c.coeff = float(rng.normal()) * float(rng.choice([1, 1e-6, 1e6]))
+            c.coeff = float(rng.normal()) * float(rng.choice([1, 1e-6, 1e6, 1e-9, 1e-12, 1e-30]))
         if kind == 'single':
             c.coeff = float(rng.choice([2.5, -0.75, 1e-3, 7, 1]))
         if kind == 'identity-heavy':
